@@ -587,7 +587,14 @@ namespace pika::util {
             std::string entry = sec->get_entry(entryname, defaultvaluestr);
             char* endptr = nullptr;
             std::ptrdiff_t val = std::strtoll(entry.c_str(), &endptr, /*base:*/ 0);
-            return endptr != entry.c_str() ? val : defaultvalue;
+            if (endptr == entry.c_str())
+            {
+                PIKA_THROW_EXCEPTION(pika::error::bad_parameter,
+                    "runtime_configuration::init_stack_size",
+                    "invalid value '{}' for pika.stacks.{} (expected a number, default is {})", entry,
+                    entryname, defaultvalue);
+            }
+            return val;
         }
         return defaultvalue;
     }
